@@ -45,7 +45,7 @@ PROPS = {
                 state=kinds("A"), effects=eff("transfer"), errnames=True),
     "C06": dict(profiles=["money", "lifecycle"], monitors=["issueLaw", "batchDebit"],
                 state=kinds("RQ", "CX", "AB", "AI"), effects=eff("ev", "transfer"), errnames=False),
-    "C07": dict(profiles=["money", "bindings"], monitors=["issueLaw"],
+    "C07": dict(profiles=["money", "bindings"], monitors=["issueLaw", "volumeLaw"],
                 state=kinds("RQ", "VO", "PR", "B"), effects=eff("transfer"), errnames=False),
     "C08": dict(profiles=["lifecycle", "money"], monitors=["respondLaw", "rejectedNoChange", "settlement"],
                 state=kinds("AI", "AB", "RS", "RQ"), effects=eff("transfer", "slash"), errnames=True),
